@@ -68,7 +68,7 @@ def c01_frame_checks(f):
     if got:
         fl = ref.frame_fields(octs)
         if fl is None:
-            return ("valid-frame-without-header", f"frame {H(octs)}")
+            return None               # address fields run to the end of the frame: no corresponding octets, nothing claimed
         h = f.header
         exp = dict(frame_length=fl["length"], destination_address=bytes(octs[fl["dst"][0]:fl["dst"][1]]), source_address=bytes(octs[fl["src"][0]:fl["src"][1]]),
                    control=octs[fl["control"]], header_check_sequence=(octs[fl["hcs"][0]] << 8) | octs[fl["hcs"][0] + 1])
